@@ -59,6 +59,16 @@ def handle (op : String) (args : List String) : Option String :=
       | .ok v => showVec v
       | .err _ => "ERR"
       | .panic _ => "PANIC")
+  | "dk_from_angles", [phs, ths, phi, thi, php, thp, ns, ni, np, ws, wi, wp, k, p, n] => do
+    let phs ← parseFl phs; let ths ← parseFl ths; let phi ← parseFl phi; let thi ← parseFl thi
+    let php ← parseFl php; let thp ← parseFl thp
+    let ns ← parseFl ns; let ni ← parseFl ni; let np ← parseFl np
+    let ws ← parseFl ws; let wi ← parseFl wi; let wp ← parseFl wp
+    let pp ← parsePoling k p n
+    pure (match deltaKAngles phs ths phi thi php thp ns ni np ws wi wp pp with
+      | .ok v => showVec v
+      | .err _ => "ERR"
+      | .panic _ => "PANIC")
   | "k_eff", [k, p, n] => do
     let pp ← parsePoling k p n
     pure (match kEff pp with
